@@ -116,19 +116,22 @@ Proof.
 Qed.
 
 (* ---------------------------------------------------------------- one file event, one name *)
-Lemma J_step : forall l q v o, reserved q = false ->
-  J l q v -> op_ok l o = true -> J (aop l o) q (vstep q v o).
+Lemma J_step : forall purge l q v o, reserved q = false ->
+  J l q v -> purge = true \/ op_ok l o = true -> J (aop l o) q (vstep purge q v o).
 Proof.
-  intros l q v o Hq (E & HE & HN) Hok. destruct o as [f|f ds]; simpl.
+  intros purge l q v o Hq (E & HE & HN) Hok. destruct o as [f|f ds]; simpl.
   - exists (filter (notf f) E). split; [now apply eff_remove|].
     now rewrite nodupfst_filter, HN, definers_del.
   - unfold v_loadfile, J. rewrite Hq. simpl definers. destruct (get q ds) as [d|] eqn:Eg.
     + destruct (eff_load f d v E HE) as (E' & HE' & HN').
       exists E'. split; [assumption|]. now rewrite HN', HN, definers_del.
-    + rewrite definers_del. destruct (owner_is f v) eqn:Eo.
-      * rewrite owner_remove by assumption.
-        exists (filter (notf f) E). split; [now apply eff_remove|].
-        now rewrite nodupfst_filter, HN.
+    + rewrite definers_del.
+      assert (Hrem : exists E0, eff (v_remove f v) = Some E0 /\ nodupfst E0 = filter (notf f) (definers l q)).
+      { exists (filter (notf f) E). split; [now apply eff_remove|]. now rewrite nodupfst_filter, HN. }
+      destruct purge; [exact Hrem|].
+      destruct Hok as [Hok|Hok]; [discriminate|].
+      destruct (owner_is f v) eqn:Eo.
+      * rewrite owner_remove by assumption. exact Hrem.
       * exists E. split; [assumption|]. rewrite <- HN.
         symmetry. apply filter_notf_id.
         rewrite (eff_owner f v E HE) in Eo.
@@ -145,27 +148,32 @@ Proof.
         rewrite <- HN. simpl. exact H.
 Qed.
 
-Lemma Jr_step : forall res q v o, reserved q = true -> Jr res q v -> Jr res q (vstep q v o).
+Lemma Jr_step : forall purge res q v o, reserved q = true -> Jr res q v -> Jr res q (vstep purge q v o).
 Proof.
-  intros res q [[s o'] c] o Hq [H1 H2]. simpl in H1, H2. subst o'.
+  intros purge res q [[s o'] c] o Hq [H1 H2]. simpl in H1, H2. subst o'.
   destruct o as [f|f ds]; simpl.
   - unfold v_remove, v_disassoc, owner_is; simpl. split; [exact H1 | reflexivity].
   - unfold v_loadfile. rewrite Hq. destruct (get q ds); [split; [exact H1 | reflexivity]|].
-    unfold owner_is; simpl. split; [exact H1 | reflexivity].
+    destruct purge.
+    + unfold v_remove, v_disassoc, owner_is; simpl. split; [exact H1 | reflexivity].
+    + unfold owner_is; simpl. split; [exact H1 | reflexivity].
 Qed.
 
-Lemma J_steps : forall q ops l v, reserved q = false ->
-  J l q v -> ops_ok l ops = true -> J (fold_left aop ops l) q (fold_left (vstep q) ops v).
+Lemma J_steps : forall purge q ops l v, reserved q = false ->
+  J l q v -> purge = true \/ ops_ok l ops = true -> J (fold_left aop ops l) q (fold_left (vstep purge q) ops v).
 Proof.
-  induction ops as [|o r IH]; intros l v Hq HJ Hok; simpl; [assumption|].
-  simpl in Hok. apply andb_true_iff in Hok. destruct Hok as [H1 H2].
-  apply IH; auto. now apply J_step.
+  intros purge q. induction ops as [|o r IH]; intros l v Hq HJ Hok; simpl; [assumption|].
+  apply IH; auto.
+  - apply J_step; auto. destruct Hok as [Hok|Hok]; [now left|right].
+    simpl in Hok. now apply andb_true_iff in Hok.
+  - destruct Hok as [Hok|Hok]; [now left|right].
+    simpl in Hok. now apply andb_true_iff in Hok.
 Qed.
 
-Lemma Jr_steps : forall res q ops v, reserved q = true ->
-  Jr res q v -> Jr res q (fold_left (vstep q) ops v).
+Lemma Jr_steps : forall purge res q ops v, reserved q = true ->
+  Jr res q v -> Jr res q (fold_left (vstep purge q) ops v).
 Proof.
-  induction ops as [|o r IH]; intros v Hq HJ; simpl; [assumption|].
+  intros purge res q. induction ops as [|o r IH]; intros v Hq HJ; simpl; [assumption|].
   apply IH; auto. now apply Jr_step.
 Qed.
 
@@ -196,15 +204,15 @@ Proof.
   - rewrite get_filter_reserved, Eq. exists []. split; reflexivity.
 Qed.
 
-Theorem inv_scan : forall fs m a, wf_fs fs -> Inv m a -> step_ok fs a = true ->
-  Inv (scan fs m) (spec_step fs a).
+Theorem inv_scan : forall purge fs m a, wf_fs fs -> Inv m a -> purge = true \/ step_ok fs a = true ->
+  Inv (scan_gen purge fs m) (spec_step fs a).
 Proof.
-  intros fs m a Hfs (Hw & Hts & Hf & Hn) Hok.
+  intros purge fs m a Hfs (Hw & Hts & Hf & Hn) Hok.
   unfold step_ok in Hok. unfold spec_step. rewrite <- Hts, <- Hf in *.
-  pose proof (scan_view fs m 0 Hw Hfs) as (_ & S2 & S3 & S4).
+  pose proof (scan_view purge fs m 0 Hw Hfs) as (_ & S2 & S3 & S4).
   destruct (scan_plan fs (st_ts m) (st_files m)) as [ops ts'] eqn:Epl. simpl in *.
   repeat split; auto.
-  intros q. pose proof (scan_view fs m q Hw Hfs) as (S1 & _). rewrite Epl in S1. simpl in S1.
+  intros q. pose proof (scan_view purge fs m q Hw Hfs) as (S1 & _). rewrite Epl in S1. simpl in S1.
   rewrite S1. specialize (Hn q). simpl. destruct (reserved q) eqn:Eq.
   - now apply Jr_steps.
   - now apply J_steps.
@@ -221,43 +229,88 @@ Proof.
       simpl in HE; try discriminate; inversion HE; subst; reflexivity.
 Qed.
 
-Lemma inv_run : forall h m a, Forall wf_fs h -> Inv m a -> hist_ok_from a h = true ->
-  Inv (fold_left (fun m fs => scan fs m) h m) (fold_left (fun a fs => spec_step fs a) h a).
+Lemma inv_run : forall purge h m a, Forall wf_fs h -> Inv m a -> purge = true \/ hist_ok_from a h = true ->
+  Inv (fold_left (fun m fs => scan_gen purge fs m) h m) (fold_left (fun a fs => spec_step fs a) h a).
 Proof.
-  induction h as [|fs r IH]; intros m a Hh HI Hok; simpl; [assumption|].
-  inversion Hh; subst. simpl in Hok. apply andb_true_iff in Hok. destruct Hok as [Ha Hb].
+  intros purge. induction h as [|fs r IH]; intros m a Hh HI Hok; simpl; [assumption|].
+  inversion Hh; subst.
+  assert (Ha : purge = true \/ step_ok fs a = true).
+  { destruct Hok as [Hok|Hok]; [now left|right]. simpl in Hok. now apply andb_true_iff in Hok. }
+  assert (Hb : purge = true \/ hist_ok_from (spec_step fs a) r = true).
+  { destruct Hok as [Hok|Hok]; [now left|right]. simpl in Hok. now apply andb_true_iff in Hok. }
   apply IH; auto. now apply inv_scan.
 Qed.
 
-(* the store follows the files on every history without a shadowed drop *)
+(* the released code: the store follows the files on every history without a shadowed drop *)
 Theorem run_refines_spec : forall s h, Forall wf_fs h -> hist_ok s h = true ->
   forall q, get q (st_store (run s h)) = spec_store (spec_run s h) q.
 Proof.
-  intros s h Hh Hok q. apply inv_store. apply inv_run; auto. apply inv_init.
+  intros s h Hh Hok q. apply inv_store. apply (inv_run false); auto. apply inv_init.
+Qed.
+
+(* the code with fixes/C18-stale-cache.diff: on every history *)
+Theorem run_refines_spec_fixed : forall s h, Forall wf_fs h ->
+  forall q, get q (st_store (run_gen true s h)) = spec_store (spec_run s h) q.
+Proof.
+  intros s h Hh q. apply inv_store. apply (inv_run true); auto. apply inv_init.
 Qed.
 
 (* ---------------------------------------------------------------- reserved names, every history *)
 Definition RInv (s : list (pname * defid)) (m : mstate) : Prop :=
   wfm m /\ forall q, reserved q = true -> Jr s q (view_of m q).
 
-Lemma rinv_scan : forall s fs m, wf_fs fs -> RInv s m -> RInv s (scan fs m).
+Lemma rinv_scan : forall purge s fs m, wf_fs fs -> RInv s m -> RInv s (scan_gen purge fs m).
 Proof.
-  intros s fs m Hfs (Hw & Hr). split.
-  - now destruct (scan_view fs m 0 Hw Hfs) as (_ & _ & _ & S4).
-  - intros q Hq. destruct (scan_view fs m q Hw Hfs) as (S1 & _). rewrite S1.
+  intros purge s fs m Hfs (Hw & Hr). split.
+  - now destruct (scan_view purge fs m 0 Hw Hfs) as (_ & _ & _ & S4).
+  - intros q Hq. destruct (scan_view purge fs m q Hw Hfs) as (S1 & _). rewrite S1.
     apply Jr_steps; auto.
 Qed.
 
-Theorem reserved_untouched_run : forall s h, Forall wf_fs h ->
+Theorem reserved_untouched_run : forall purge s h, Forall wf_fs h ->
   forall q, reserved q = true ->
-    get q (st_store (run s h)) = get q s /\ get q (st_map (run s h)) = None.
+    get q (st_store (run_gen purge s h)) = get q s /\ get q (st_map (run_gen purge s h)) = None.
 Proof.
-  intros s h Hh q Hq.
-  assert (H : RInv s (run s h)).
-  { unfold run. assert (H0 : RInv s (init s)).
+  intros purge s h Hh q Hq.
+  assert (H : RInv s (run_gen purge s h)).
+  { unfold run_gen. assert (H0 : RInv s (init s)).
     { split; [constructor|]. intros q0 Hq0. unfold Jr, view_of, init; simpl.
       rewrite get_filter_reserved, Hq0. split; reflexivity. }
     revert H0. generalize (init s). induction Hh; intros m0 H0; simpl; [assumption|].
     apply IHHh. now apply rinv_scan. }
   destruct H as (_ & Hr). destruct (Hr q Hq) as [H1 H2]. split; assumption.
+Qed.
+
+(* ---------------------------------------------------------------- tracking structures stay consistent, every history *)
+(* a non reserved name is either absent from store, owner map and cache, or present in all
+   three: the state in which l.120 `self.policy_cache.get(p).append` meets None does not
+   arise between scans *)
+Lemma eff_step : forall purge q v o E, reserved q = false -> eff v = Some E ->
+  exists E', eff (vstep purge q v o) = Some E'.
+Proof.
+  intros purge q v o E Hq HE. destruct o as [f|f ds]; simpl.
+  - eexists; apply eff_remove; exact HE.
+  - unfold v_loadfile. rewrite Hq. destruct (get q ds) as [d|].
+    + destruct (eff_load f d v E HE) as (E' & HE' & _). eauto.
+    + destruct purge; [eexists; apply eff_remove; exact HE|].
+      destruct (owner_is f v) eqn:Eo; [|eauto].
+      rewrite owner_remove by assumption. eexists; apply eff_remove; exact HE.
+Qed.
+
+Lemma eff_steps : forall purge q ops v E, reserved q = false -> eff v = Some E ->
+  exists E', eff (fold_left (vstep purge q) ops v) = Some E'.
+Proof.
+  intros purge q. induction ops as [|o r IH]; intros v E Hq HE; simpl; [eauto|].
+  destruct (eff_step purge q v o E Hq HE) as (E' & HE'). eapply IH; eauto.
+Qed.
+
+Theorem tracking_consistent_run : forall purge s h, Forall wf_fs h ->
+  forall q, reserved q = false -> exists E, eff (view_of (run_gen purge s h) q) = Some E.
+Proof.
+  intros purge s h Hh q Hq. unfold run_gen.
+  assert (H0 : wfm (init s) /\ exists E, eff (view_of (init s) q) = Some E).
+  { split; [unfold wfm, init; simpl; constructor|]. exists []. unfold view_of, init; simpl. rewrite get_filter_reserved, Hq. reflexivity. }
+  revert H0. generalize (init s). induction Hh; intros m0 (Hw & E & HE); simpl; [eauto|].
+  apply IHHh. destruct (scan_view purge x m0 q Hw H) as (S1 & _ & _ & S4). split; [assumption|].
+  rewrite S1. eapply eff_steps; eauto.
 Qed.
